@@ -233,12 +233,26 @@ func (j *Join) JoinFunc(l, r *HashedTable) ([]any, error) {
 func (j *Join) ParallelJoinFunc(l, r *HashedTable) ([]any, error) {
 	var mut sync.Mutex
 	var wg sync.WaitGroup
+	// a failure on any key is reported to the caller once all tasks have finished
+	var firstErr error
+	fail := func(err error) {
+		mut.Lock()
+		if firstErr == nil {
+			firstErr = err
+		}
+		mut.Unlock()
+	}
 	slice := make([]any, 0)
 
 	for lk, lv := range l.Keys {
 		wg.Add(1)
 		go func(lk string, lv *map[string]any) {
 			defer wg.Done()
+			defer func() {
+				if r := recover(); r != nil {
+					fail(asError(r))
+				}
+			}()
 			switch ok, matches, err := j.JoinMatchFunc(lk, lv, l, r); {
 			case ok:
 				{
@@ -248,7 +262,7 @@ func (j *Join) ParallelJoinFunc(l, r *HashedTable) ([]any, error) {
 				}
 			case !ok && err != nil:
 				{
-					panic(err)
+					fail(err)
 				}
 			default:
 				{
@@ -258,6 +272,9 @@ func (j *Join) ParallelJoinFunc(l, r *HashedTable) ([]any, error) {
 		}(lk, lv)
 	}
 	wg.Wait()
+	if firstErr != nil {
+		return nil, firstErr
+	}
 	return slice, nil
 }
 
@@ -337,11 +354,25 @@ func (j *Join) JoinMatchFunc(lk string, lv *map[string]any, l, r *HashedTable) (
 func (j *Join) ParallelHashJoinFunc(l, r *HashedTable) ([]any, error) {
 	var mut sync.Mutex
 	var wg sync.WaitGroup
+	// a failure on any key is reported to the caller once all tasks have finished
+	var firstErr error
+	fail := func(err error) {
+		mut.Lock()
+		if firstErr == nil {
+			firstErr = err
+		}
+		mut.Unlock()
+	}
 	slice := make([]any, 0)
 	for lk := range l.Rows {
 		wg.Add(1)
 		go func(lk string) {
 			defer wg.Done()
+			defer func() {
+				if r := recover(); r != nil {
+					fail(asError(r))
+				}
+			}()
 			switch ok, matches, err := j.HashJoinMatchFunc(lk, l, r); {
 			case ok:
 				{
@@ -351,7 +382,7 @@ func (j *Join) ParallelHashJoinFunc(l, r *HashedTable) ([]any, error) {
 				}
 			case !ok && err != nil:
 				{
-					panic(err)
+					fail(err)
 				}
 			default:
 				{
@@ -361,6 +392,9 @@ func (j *Join) ParallelHashJoinFunc(l, r *HashedTable) ([]any, error) {
 		}(lk)
 	}
 	wg.Wait()
+	if firstErr != nil {
+		return nil, firstErr
+	}
 	return slice, nil
 }
 
